@@ -41,6 +41,15 @@ def trace_stats(T: oracle.Trace) -> Dict[str, Any]:
             "resources": sorted({M.res[s] for s in T.enter if s in M.res})}
 
 
+def _is_spawn_fault(exc: Optional[BaseException]) -> bool:
+    seen = 0
+    while exc is not None and seen < 8:
+        if isinstance(exc, RuntimeError) and "can't start new thread" in str(exc):
+            return True
+        exc, seen = exc.__cause__ or exc.__context__, seen + 1
+    return False
+
+
 def run_once(case: Dict[str, Any], oracles: Sequence[str], res: CaseResult, M: Model) -> Optional[Dict[str, Any]]:
     """Execute the case once and add the oracle findings to `res`.  Returns trace statistics."""
     noframe = case.get("noframe")
@@ -62,6 +71,8 @@ def run_once(case: Dict[str, Any], oracles: Sequence[str], res: CaseResult, M: M
     assert out.ex is not None
     T = oracle.Trace(M, out)
     stats: Dict[str, Any] = {}
+    spawn_fails = [e for e in out.ex.events if e["k"] == "SPAWNFAIL"]
+    spawn_failed = bool(spawn_fails)
     tag = f" [mode={out.ex.mode} choices={[t[0] for t in out.ex.taken]}]"
     for name in oracles:
         if name == "values":
@@ -103,7 +114,9 @@ def run_once(case: Dict[str, Any], oracles: Sequence[str], res: CaseResult, M: M
             for r, m, k in oracle.failure(T, case, noframe=bool(noframe)):
                 res.viol(r, m + tag, k)
         elif name == "no_internal_error":
-            if out.exc is not None and out.ref_exc is None and not isinstance(out.exc, sched.HarnessSignal):
+            if spawn_failed and _is_spawn_fault(out.exc):
+                pass  # the injected resource fault itself (possibly wrapped by tawazi): failing the call with it is fine
+            elif out.exc is not None and out.ref_exc is None and not isinstance(out.exc, sched.HarnessSignal):
                 res.viol("internal-error", f"the call raised {type(out.exc).__name__}: {out.exc}" + tag)
         else:
             raise ValueError(name)
@@ -115,6 +128,8 @@ def run_once(case: Dict[str, Any], oracles: Sequence[str], res: CaseResult, M: M
     stats["taken"] = out.ex.taken
     stats["n_entered"] = len(T.enter)
     stats["raised"] = type(out.exc).__name__ if out.exc is not None else None
+    stats["spawn_failed"] = spawn_failed
+    stats["spawn_failed_inflight"] = any(e.get("workers_alive") for e in spawn_fails)
     stats["failed_ran"] = [s for s in case.get("failing", []) if any(not x["ok"] for x in T.exit.get(s, []))]
     inflight_at_fail = 0
     for s in stats["failed_ran"]:
@@ -171,8 +186,16 @@ def evaluate(case: Dict[str, Any], oracles: Sequence[str], nontrivial: Callable[
         res.cls("derived-" + case["derive"])
     if case.get("warm"):
         res.cls("warm-call-before")
+    if case.get("early_exec"):
+        res.cls("executor-created-before-reconfiguration")
     if case.get("group_conf"):
         res.cls("config-by-group-tag")
+    if case.get("spawn_fail") is not None:
+        res.cls("spawn-fault")
+        if any(s_.get("spawn_failed") for s_ in all_stats):
+            res.cls("spawn-fault-fired")
+        if any(s_.get("spawn_failed_inflight") for s_ in all_stats):
+            res.cls("spawn-fault-fired-with-live-workers")
     if case.get("failing"):
         res.cls("fault")
         if any(s_["failed_ran"] for s_ in all_stats):
@@ -217,6 +240,7 @@ def sched_case(
     flag_rate: float = 0.0,
     warm_rate: float = 0.3,
     nested_rate: float = 0.15,
+    spawn_fail_rate: float = 0.0,
 ) -> Dict[str, Any]:
     mode = draw(st.sampled_from(list(modes)))
     res_pool = list(resources)
@@ -312,9 +336,17 @@ def sched_case(
             case["reconf"] = {s: draw(st.integers(-3, 5)) for s in some[:half]}
         if some[half:]:
             case["reconf_seq"] = {s: draw(st.booleans()) for s in some[half:]}
+    early_ok = bool(case.get("reconf_seq")) and case.get("call") != "setup"
+    if early_ok and gen.chance(draw, 0.4):
+        # history: executor created, THEN is_sequential reconfigured, then the executor is run (priorities are left
+        # alone here: an executor keeps the compound priorities of the graph it was created from)
+        case["early_exec"] = True
+        case.pop("reconf", None)
     if warm_rate and not case.get("failing") and case.get("call") != "setup" and gen.chance(draw, warm_rate) \
             and not any(f.get("setup") for f in P["fns"].values()):
         case["warm"] = True  # the instance has been called once before it is (re)configured and observed
+    if case.get("early_exec"):
+        nested_rate = 0.0  # (no further derivation of the object that runs)
     compose_ok = (nested_rate and not case.get("sel") and case.get("call") != "setup" and not n_params
                   and all(e[0] == "v" for e in P["ret"][1]) and not any(f.get("setup") or f.get("debug") for f in P["fns"].values()))
     if compose_ok and gen.chance(draw, 0.25):
@@ -346,6 +378,9 @@ def sched_case(
             case["build_mc"] = draw(st.integers(1, 5))
         if draw(st.booleans()):
             case["group_conf"] = True  # equal attributes -> one entry keyed by a tag shared by those sites
+    if spawn_fail_rate and not case.get("failing") and gen.chance(draw, spawn_fail_rate):
+        # fault at a point: the pool cannot start its k-th worker thread during the observed execution
+        case["spawn_fail"] = draw(st.integers(0, max(0, case["mc"] - 1)))
     return case
 
 
